@@ -117,18 +117,49 @@ func checkRoundedCountsAreRegisters(c *core.Ctx) {
 				continue
 			}
 			st.Instances++
-			good := false
-			if m, ok := core.StripConv(s.Val).(*ssa.BinOp); ok && m.Op == token.MUL {
-				for _, pair := range [][2]ssa.Value{{m.X, m.Y}, {m.Y, m.X}} {
-					q, isQ := core.StripConv(pair[0]).(*ssa.BinOp)
-					k1, isK1 := core.ConstInt(pair[1])
-					if isQ && q.Op == token.QUO && isK1 {
-						if k2, isK2 := core.ConstInt(q.Y); isK2 && k1 == k2 {
-							good = true
+			var rounded func(v ssa.Value, d int) bool
+			rounded = func(v ssa.Value, d int) bool {
+				v = core.StripConv(v)
+				if d > 4 {
+					return false
+				}
+				if core.LoadedField(v) == f {
+					return true // the value the field already holds (max(old, new), a phi with the old value)
+				}
+				switch x := v.(type) {
+				case *ssa.BinOp:
+					if x.Op != token.MUL {
+						return false
+					}
+					for _, pair := range [][2]ssa.Value{{x.X, x.Y}, {x.Y, x.X}} {
+						q, isQ := core.StripConv(pair[0]).(*ssa.BinOp)
+						k1, isK1 := core.ConstInt(pair[1])
+						if isQ && q.Op == token.QUO && isK1 {
+							if k2, isK2 := core.ConstInt(q.Y); isK2 && k1 == k2 {
+								return true
+							}
 						}
 					}
+				case *ssa.Call:
+					if b, isB := x.Call.Value.(*ssa.Builtin); isB && (b.Name() == "max" || b.Name() == "min") {
+						for _, a := range x.Call.Args {
+							if !rounded(a, d+1) {
+								return false
+							}
+						}
+						return true
+					}
+				case *ssa.Phi:
+					for _, e := range x.Edges {
+						if !rounded(e, d+1) {
+							return false
+						}
+					}
+					return true
 				}
+				return false
 			}
+			good := rounded(s.Val, 0)
 			st.Ob(good)
 			if !good {
 				c.ReportAt("R13.14", fn, s.Pos(), "count-not-in-registers:"+f.Name(), "overrideRegisterCountsFromSymbols stores into "+f.Name()+" a value that is not (quotient by the granule) times the granule")
